@@ -144,7 +144,10 @@ def run (kv : KV) : String :=
         let tp := Conn.run (bytes.take n) .open script
         tp.unmodelled || (isPrefix (tp.out.take tp.flushed) holdWire && isPrefix holdWire tp.out)
     | none => true
-  let holdOk := get kv "i_holdneed" != "1" || !holdWire.isEmpty
+  -- (in the `expmt` family the earlier responses arrive in any case: there the interim response
+  -- itself must be among what the withholding client has in hand)
+  let holdOk := get kv "i_holdneed" != "1" ||
+    (!holdWire.isEmpty && (get kv "i_fam" != "expmt" || containsSub holdWire b!"HTTP/1.1 100 "))
   -- read-ahead: how many requests become available while none is answered
   -- (with `streamed_first=1` the application reads the first, streamed body to its end on arrival)
   let aheadCount : Nat :=
